@@ -382,7 +382,7 @@ for key, forms in groups.items():
         x64 = 'true' if mode == '64' else 'false'
         rec = dict(inst=name, mode=mode, enc='+'.join(sorted(set(forms[i]['enc'] for i in sel))), has_mem=has_mem, nforms=len(sel), records=sorted(set(forms[i]['record'] for i in sel)))
         if kf:
-            harn.append('#if KF_%s && !defined(VF_AGREE)\nHARNESS %s() { vf::run_forms<%s>(vf::%s, %d, 1); }\nHARNESS %s_kf_%s() { vf::run_forms<%s>(vf::%s, %d, 2); }\n#else\nHARNESS %s() { VF_RUN(%s, vf::%s, %d); }\n#endif' % (
+            harn.append('#if KF_%s && !defined(VF_AGREE) && !defined(VF_LOGINDEP)\nHARNESS %s() { vf::run_forms<%s>(vf::%s, %d, 1); }\nHARNESS %s_kf_%s() { vf::run_forms<%s>(vf::%s, %d, 2); }\n#else\nHARNESS %s() { VF_RUN(%s, vf::%s, %d); }\n#endif' % (
                 kf[0], fn, x64, tabn, cnt, fn, kf[0], x64, tabn, cnt, fn, x64, tabn, cnt))
             meta.append(dict(rec, fn=fn)); meta.append(dict(rec, fn='%s_kf_%s' % (fn, kf[0]), known=kf[0]))
         else:
